@@ -85,6 +85,9 @@ pub fn strata_for(prop: &str, tier: Tier) -> Vec<Stratum> {
                 push_g1(&mut v, *c, tier.pick(2000, 40000) as u32, 100);
             }
             push_g2(&mut v, &data, tier.pick(200_000, 6_000_000) as u32, 200);
+            for _ in 0..tier.pick(400, 12_000) {
+                v.push(Stratum::Persist { n: 250 });
+            }
         }
         "C02" => {
             for c in &data {
